@@ -1,8 +1,8 @@
 (* Cache/C09Model.v - the executable entry points of the C09 correspondence run: the model of
    Cache/PCache.v instantiated with the constants regenerated from /repo/internal/caching/pcache.go. *)
 From Coq Require Import NArith List.
-From SV.Gen Require Import CacheConsts.
-From SV.Cache Require Import PCache LoadMap.
+From SV.Gen Require Import CacheConsts EncCacheKey.
+From SV.Cache Require Import PCache LoadMap Served.
 Open Scope N_scope.
 
 Definition cache_new (c : N) : pmap := newProgramMap c.
@@ -12,3 +12,12 @@ Definition cache_step (hash : N -> N) (st : option pmap) (o : op) : option pmap 
 Definition cache_run (hash : N -> N) (c : N) (ops : list op) : option pmap * list res :=
   run hash LoadFactor_num LoadFactor_den (Some (newProgramMap c)) ops.
 Definition loader_loadmany (items : list item) : list (option N) := loadmany items.
+
+(* the encoder program caches (internal/encoder/vars): history of FindOrCompile / pretouchType / pretouchRec over the caches
+   selected by the regenerated key shape Gen/EncCacheKey.v *)
+Definition enc_hrun (hash : N -> N) (compile : N -> bool -> option N) (h : list hop) :=
+  hrun enc_cache enc_cache_eqb hash LoadFactor_num LoadFactor_den compile
+       FindOrCompile_get FindOrCompile_compute GetProgram_get ComputeProgram_compute
+       (fun _ => newProgramMap InitCapacity) h.
+Definition enc_served (hash : N -> N) (st : enc_cache -> pmap) (k : N) (pv : bool) : N :=
+  Get hash (st (GetProgram_get pv)) k.
